@@ -60,6 +60,7 @@ def make_runner(cfg):
             job = bp.ApplyResult(
                 cache, lambda v: cbs.append(('ok', v)),
                 error_callback=lambda e: cbs.append(('err', e.type.__name__)),
+                accept_callback=lambda pid, t: cbs.append(('acc', pid)),
                 timeout=None if soft else 1.0,
                 soft_timeout=0.5 if soft else None, lost_worker_timeout=1.0,
                 timeout_callback=lambda **kw: cbs.append(('to', kw)))
@@ -143,7 +144,7 @@ def make_runner(cfg):
                 with linepoints.nopreempt():
                     observe()
             fns = dict(ready=ready, hard=hard, lost=lost, putfail=putfail,
-                       ack=ack, softscan=softscan)
+                       ack=ack, softscan=softscan, hardscan=softscan)
             _lines_on()
             for k, name in enumerate(pair):
                 sched.spawn(fns[name], name, pid=vos.MAIN_PID)
@@ -159,7 +160,8 @@ def make_runner(cfg):
             status = sched.status
             errs = [repr(t.exc) for t in sched.threads if t.exc]
             observe()
-            ncb = [c[0] for c in cbs if c[0] != 'to']
+            ncb = [c[0] for c in cbs if c[0] in ('ok', 'err')]
+            order = [c[0] for c in cbs if c[0] in ('ok', 'err', 'acc')]
             incache = job._job in cache
             kills = [k for k in world.kills if k[1] == 100]
         v = None
@@ -187,9 +189,13 @@ def make_runner(cfg):
                  'job\'s result had already been processed (its worker may '
                  'be running another job by now)' % (pair[0], pair[1]))
             sig = 'F29:soft-signal-after-result-processed'
-        elif not seen:
+        elif 'hardscan' in pair and 'acc' in order and order[0] != 'acc':
+            v = ('%s || %s: the result callback ran before the accept '
+                 'callback: %r' % (pair[0], pair[1], order))
+        elif not seen and 'hardscan' not in pair:
+            # (a scan that ran before the acceptance leaves the job alone)
             v = 'job left unresolved'
-        elif incache and job._accepted:
+        elif seen and incache and job._accepted:
             v = 'resolved and accepted job still cached'
         x = explore.Execution(ch.decisions, outcome=(status, tuple(seen),
                                                      tuple(ncb), incache),
@@ -234,6 +240,9 @@ def configs(tier):
     out.append((dict(pair=['softscan', 'ready'], acked=True), b))
     out.append((dict(pair=['putfail', 'ack'], acked=False), b))
     out.append((dict(pair=['ready', 'ack'], acked=False), b))
+    # the accept message is processed (result thread) while the scanner
+    # (its own thread) finds the hard limit already exceeded
+    out.append((dict(pair=['ack', 'hardscan'], acked=False), b))
     return out
 
 
